@@ -40,6 +40,11 @@ def shapes(tier):
         s.append(("deep_close", b"} " * d))
         s.append(("many_items", b"i = 1\n" * d))
         s.append(("many_multi", b"m t { }\n" * min(d, 20000)))
+    # a call with very many arguments, parsed with little stack left (STACK: soft limit in KB for the process of this case):
+    # what a text can make arbitrarily large must not live on the stack
+    nargs = 20000 if tier == "quick" else 60000
+    s.append(("many_args", b"fn ( " + b"a , " * (nargs - 1) + b"a )\ni = 1\n"))
+    s.append(("many_args_include", b'include ( ' + b'"a" , ' * (nargs - 1) + b'"a" )\n'))
     s.append(("long_word", b"s = " + b"w" * mb))
     s.append(("long_dq", b's = "' + b"q" * mb + b'"'))
     s.append(("long_sq", b"s = '" + b"q" * mb + b"'"))
@@ -90,6 +95,8 @@ def generate(rng, tier):
                                       ] + (["FILE %s reg %s" % (hx(nm), hx(c)) for nm, c in UNBALANCED_FILES] if kind == "unbalanced_include" else []) + [
                                       "ENV %s %s" % (hx("X"), hx(b"x\"}{")), "X 0 %d" % flags]
         nul = b"\x00" in text
+        if kind.startswith("many_args"):
+            lines.append("STACK 128")
         if n % 3 == 0:
             lines += ["SP 0 " + hx(cdir), "SP 0 " + hx("/nonexistent")]
         if via == "PB" and not nul:
